@@ -138,13 +138,45 @@ fn fb(fill: u64, tag: u64, n: usize) -> Vec<u8> {
     Rng::new(fill, tag, 9).bytes(n)
 }
 
+/// Certificate / signature content as real authenticators hold it: DER SEQUENCE headers whose announced
+/// length is exact, shorter than the member (a padded slot) or longer than it; or plain random bytes.
+fn der_like(fill: u64, tag: u64, n: usize) -> Vec<u8> {
+    let mut b = fb(fill, tag, n);
+    let style = (fill >> 8).wrapping_add(tag) % 6;
+    if style == 0 || n < 2 {
+        return b;
+    }
+    b[0] = 0x30;
+    let announced = |inner: usize| -> usize {
+        match style {
+            1 | 2 => inner,
+            3 => inner.saturating_sub(1 + (fill as usize >> 16) % 16),
+            4 => inner + 1 + (fill as usize >> 16) % 300,
+            _ => 0,
+        }
+    };
+    if n >= 4 && (n - 4 > 127 || style == 2) {
+        // long form, two length bytes
+        let a = announced(n - 4).min(0xffff);
+        b[1] = 0x82;
+        b[2] = (a >> 8) as u8;
+        b[3] = a as u8;
+    } else if n >= 3 && n - 3 > 127 {
+        b[1] = 0x81;
+        b[2] = announced(n - 3).min(0xff) as u8;
+    } else {
+        b[1] = announced(n - 2).min(0x7f) as u8;
+    }
+    b
+}
+
 /// Build the real response value and, independently, the bytes the U2F raw message format prescribes.
 pub fn build(x: &U2fSpec) -> (ctap1::Response, Vec<u8>) {
     match x.kind {
         0 | 1 => {
             let kh = fb(x.fill, 1, x.kh_len.min(255));
-            let cert = fb(x.fill, 2, x.cert_len.min(1024));
-            let sig = fb(x.fill, 3, x.sig_len.min(72));
+            let cert = der_like(x.fill, 2, x.cert_len.min(1024));
+            let sig = der_like(x.fill, 3, x.sig_len.min(72));
             let (resp, pk) = if x.kind == 1 {
                 let px = fb(x.fill, 4, 32);
                 let py = fb(x.fill, 5, 32);
@@ -182,7 +214,7 @@ pub fn build(x: &U2fSpec) -> (ctap1::Response, Vec<u8>) {
             (ctap1::Response::Register(resp), model)
         }
         2 => {
-            let sig = fb(x.fill, 7, x.sig_len.min(72));
+            let sig = der_like(x.fill, 7, x.sig_len.min(72));
             let r = ctap1::authenticate::Response { user_presence: x.header, count: x.count, signature: Bytes::from_slice(&sig).unwrap() };
             // user presence || counter (big-endian) || signature
             let mut model = vec![x.header];
